@@ -90,10 +90,22 @@ pub fn clear_injected(fd: RawFd) {
     INJECTED.lock().unwrap().retain(|e| e.0 != fd);
 }
 
+/// fds whose injected error has been returned by `accept()` (so a harness can tell when it hit)
+static CONSUMED: Mutex<Vec<RawFd>> = Mutex::new(Vec::new());
+
+/// number of injected errors consumed on this fd since the last call
+pub fn take_consumed_injections(fd: RawFd) -> usize {
+    let mut c = CONSUMED.lock().unwrap();
+    let n = c.iter().filter(|f| **f == fd).count();
+    c.retain(|f| *f != fd);
+    n
+}
+
 pub(crate) fn take_injected(fd: RawFd) -> Option<io::Error> {
     let mut q = INJECTED.lock().unwrap();
     let pos = q.iter().position(|e| e.0 == fd)?;
     let (_, raw, kind) = q.remove(pos);
+    CONSUMED.lock().unwrap().push(fd);
     Some(match raw {
         Some(code) => io::Error::from_raw_os_error(code),
         None => io::Error::new(kind, "injected accept error"),
